@@ -13,8 +13,6 @@ package main
 import (
 	"encoding/json"
 	"fmt"
-	"go/ast"
-	"go/parser"
 	"go/token"
 	"go/types"
 	"os"
@@ -45,19 +43,19 @@ type Op struct {
 }
 
 type Unit struct {
-	Name     string `json:"name"`
-	Pkg      string `json:"pkg"`
-	File     string `json:"file"`
-	Line     int    `json:"line"`
-	EndLine  int    `json:"end_line"`
-	RecvType string `json:"recv_type,omitempty"`
-	RecvName string `json:"recv_name,omitempty"`
-	Exported bool   `json:"exported"`
-	Parent   string `json:"parent,omitempty"`
-	LitKind  string `json:"lit_kind,omitempty"` // go | sync | defer | once:<field> | value
-	Inherit  []Held `json:"inherit,omitempty"`  // for sync / once literals: locks held where the literal is called
+	Name     string   `json:"name"`
+	Pkg      string   `json:"pkg"`
+	File     string   `json:"file"`
+	Line     int      `json:"line"`
+	EndLine  int      `json:"end_line"`
+	RecvType string   `json:"recv_type,omitempty"`
+	RecvName string   `json:"recv_name,omitempty"`
+	Exported bool     `json:"exported"`
+	Parent   string   `json:"parent,omitempty"`
+	LitKind  string   `json:"lit_kind,omitempty"` // go | sync | defer | once:<field> | value
+	Inherit  []Held   `json:"inherit,omitempty"`  // for sync / once literals: locks held where the literal is called
 	InhOnces []string `json:"inherit_onces,omitempty"`
-	Ops      []Op   `json:"ops"`
+	Ops      []Op     `json:"ops"`
 }
 
 type Struct struct {
@@ -70,6 +68,7 @@ type Out struct {
 	Units    []*Unit   `json:"units"`
 	Structs  []*Struct `json:"structs"`
 	Problems []string  `json:"problems"`
+	Notes    []string  `json:"notes"` // judgements made on the way (not failures)
 }
 
 var out Out
@@ -106,6 +105,7 @@ func main() {
 		analysePackage(byDir[d])
 	}
 	sort.Strings(out.Problems)
+	sort.Strings(out.Notes)
 	enc := json.NewEncoder(os.Stdout)
 	enc.SetIndent("", " ")
 	if err := enc.Encode(out); err != nil {
